@@ -111,9 +111,16 @@ def inputs(rnd, tier):
         # one disposal split over k lots: far more gain / loss rows than transactions
         return [tx("in", "buy", 10 + 5 * i, 1, 1 + i % 3) for i in range(k)] + [tx("out", "sell", 400, k, 3)]
 
+    def same_instant(kind):
+        # an account credited (by a transfer, or by a purchase) at the very instant it is debited, holding less than the debit before that
+        # instant: credits are booked before debits at one instant, so the input is valid (date-only records look like this)
+        credit = dict(tx("intra", "move", 20, 1, 3), a1=11, a2=21) if kind == "transfer" else dict(tx("in", "buy", 20, 1, 2), a1=21)
+        return [tx("in", "buy", 10, 2, 1), credit, dict(tx("out", "sell", 20, 1, 3), a1=21)]
+
     n = 2 if tier == "quick" else 8
     res = []
     for i in range(n):
+        res.append(("credit_and_debit_at_one_instant", {"B1": same_instant(["transfer", "purchase"][i % 2]), "B2": rnd.choice(full)}))
         res.append(("many_lots", {"B1": many_lots(30 + 30 * (i % 2)), "B2": rnd.choice(full)}))
         res.append(("joint_filing", {"B1": rnd.choice(joint or full), "B2": rnd.choice(joint or full)}))
         out_ty = ["lost", "staking", "fee", "donate", "gift", "sell"][i % 6]      # every out type in turn (each has its own sheet in some tax report)
